@@ -201,16 +201,72 @@ def searcher_rule(ctx, facts, rid):
     else:
         fbx = FxBuilder(facts, stop=GEOM_STOP | {"owlchess::moves::base::Move::src", "<owlchess::moves::base::Move as core::cmp::PartialEq>::eq"})
         tree = fbx.tree(fn)
-        sets = {}
-        for n_, conds, _i in walk_tree(tree):
-            if n_[0] == "store" and show(unstamp(n_[1])).startswith("*self.sim_"):
-                cs = [(show(unstamp(d)), lab) for d, lab, _cv in conds]
-                sets[show(unstamp(n_[1]))] = (show(unstamp(n_[2])), cs)
-        okp = (set(sets) == {"*self.sim_any", "*self.sim_file", "*self.sim_rank"} and all(v[0] == "1" for v in sets.values())
-               and any("file(" in c[0] for c in sets["*self.sim_file"][1]) and any("rank(" in c[0] for c in sets["*self.sim_rank"][1])
-               and all(any("eq(&mv, &*self.mv)" in c[0] or "eq(&*self.mv, &mv)" in c[0] for c in v[1]) for v in sets.values()))
-        r.check(okp, "AmbigDetector::push", "AmbigDetector::push does not set sim_any / sim_file (same file) / sim_rank (same rank) for every "
-                "candidate other than the move itself: %s" % sets, site=ctx.site(fn), what="push: flags from other candidates only")
+        # semantic, whatever the shape (guarded `flag = true` or `flag |= cond`): for every abstract input the flags after push are
+        #   unchanged if the candidate is the move itself; else any' = true, file' = file | same_file, rank' = rank | same_rank
+        class _U(Exception):
+            pass
+
+        def ev(e, sc):
+            e = unstamp(e)
+            t = show(e)
+            if e[0] == "const":
+                return int(bool(e[1]))
+            if e[0] == "ld" or t.startswith("*self.sim_"):
+                for nm in ("any", "file", "rank"):
+                    if t.endswith("sim_" + nm):
+                        return sc["old_" + nm]
+            if e[0] == "call" and e[1].endswith("PartialEq>::eq") and "self.mv" in t and "mv" in t:
+                return sc["same_move"]
+            if e[0] == "call" and e[1].endswith("PartialEq>::ne") and "self.mv" in t:
+                return 1 - sc["same_move"]
+            if e[0] == "bin" and e[1] in ("Eq", "Ne") and all(("file(" in show(x)) for x in (e[2], e[3])) and "self.mv" in t:
+                return sc["same_file"] if e[1] == "Eq" else 1 - sc["same_file"]
+            if e[0] == "bin" and e[1] in ("Eq", "Ne") and all(("rank(" in show(x)) for x in (e[2], e[3])) and "self.mv" in t:
+                return sc["same_rank"] if e[1] == "Eq" else 1 - sc["same_rank"]
+            if e[0] == "bin" and e[1] in ("BitOr", "BitAnd", "BitXor", "Eq", "Ne"):
+                a, b = ev(e[2], sc), ev(e[3], sc)
+                return {"BitOr": a | b, "BitAnd": a & b, "BitXor": a ^ b, "Eq": int(a == b), "Ne": int(a != b)}[e[1]]
+            if e[0] == "un" and e[1] == "Not":
+                return 1 - ev(e[2], sc)
+            raise _U(t[:80])
+        bad = None
+        npts = 0
+        paths = tree_paths(tree)
+        for bits in product((0, 1), repeat=6):
+            sc = dict(zip(("same_move", "same_file", "same_rank", "old_any", "old_file", "old_rank"), bits))
+            got = None
+            try:
+                for events, choices in paths:
+                    if events[-1][0] != "ret":
+                        continue
+                    flags = {"any": sc["old_any"], "file": sc["old_file"], "rank": sc["old_rank"]}
+                    feasible = True
+                    for e in events:
+                        if e[0] == "branch":
+                            v = ev(path_value(e[1], choices), dict(sc, old_any=flags["any"], old_file=flags["file"], old_rank=flags["rank"]))
+                            taken = (v in e[2]) if e[2] != "else" else (v not in e[4])
+                            if not taken:
+                                feasible = False
+                                break
+                        elif e[0] == "store":
+                            tgt = show(unstamp(e[1]))
+                            for nm in flags:
+                                if tgt.endswith("sim_" + nm):
+                                    flags[nm] = ev(path_value(e[2], choices), dict(sc, old_any=flags["any"], old_file=flags["file"], old_rank=flags["rank"]))
+                    if feasible:
+                        got = flags if got is None else "two paths apply"
+            except _U as ex:
+                got = "not evaluable: %s" % ex
+            if sc["same_move"]:
+                want = {"any": sc["old_any"], "file": sc["old_file"], "rank": sc["old_rank"]}
+            else:
+                want = {"any": 1, "file": sc["old_file"] | sc["same_file"], "rank": sc["old_rank"] | sc["same_rank"]}
+            npts += 1
+            if got != want and bad is None:
+                bad = (sc, got, want)
+        r.check(bad is None, "AmbigDetector::push", "AmbigDetector::push on %s leaves flags %s, expected %s (flags are raised only by candidates other "
+                "than the move itself: any always, file/rank when the source file/rank coincides)" % (bad or ("", "", "")), site=ctx.site(fn),
+                what="push: flag updates over %d abstract inputs" % npts)
 
 
 def from_move_rule(ctx, facts, rid):
